@@ -409,6 +409,11 @@ class ErrorStack(deque):
             if mxdir in frame.filename and frame.name == "on_eval_formula":
                 self.on_eval_flag = True
             elif not mxdir in frame.filename and self.on_eval_flag:
+                if not rolledback:
+                    # The rest are frames of an earlier evaluation that
+                    # raised the same exception object: Python keeps
+                    # them on the object, after those of this one
+                    break
                 node = rolledback.pop()
                 self.append(
                     (node, frame.lineno, tb.tb_frame.f_locals.copy())
